@@ -747,6 +747,39 @@ def part_axes(ctx, shard):
                 ctx.violation(base + "|mode=wrong-value", case, np.asarray(want).tolist(), got.tolist())
 
 
+# ---- integer operands whose units cancel into a large number ----------------------------------------------------------------
+def part_int_products(ctx, shard):
+    """products / quotients of INTEGER data in units that cancel into a large (or tiny) pure number: the value is the SI
+    product whatever integer type the operands have - it never wraps around"""
+    world.reset_world()
+    for ua, ub in shard:
+        sa, sb = float(Unit(ua).base_value), float(Unit(ub).base_value)
+        da, db = dim_of(Unit(ua).dimensions), dim_of(Unit(ub).dimensions)
+        for dt in ("int64", "int32", "uint16"):
+            A, B = np.array([2, 7, 300], dtype=dt), np.array([3, 5, 11], dtype=dt)
+            for oname, f, ref, wdim in (("mul", lambda x, y: x * y, lambda p, q: p * q, da * db), ("np.multiply", lambda x, y: np.multiply(x, y), lambda p, q: p * q, da * db),
+                                        ("matmul", lambda x, y: x @ y, lambda p, q: np.array(np.dot(p, q)), da * db), ("div", lambda x, y: x / y, lambda p, q: p / q, da / db),
+                                        ("scalar-mul", lambda x, y: x[0] * y[0], lambda p, q: np.array(p[0] * q[0]), da * db)):
+                ctx.count("evaluations")
+                ctx.count("transitions")
+                x, y = unyt_array(A.copy(), ua), unyt_array(B.copy(), ub)
+                r = run_real(lambda: f(x, y))
+                case = {"part": "int-products", "units": [ua, ub], "dtype": dt, "op": oname}
+                if r[0] != "ok":
+                    ctx.count("refused")
+                    continue
+                ctx.decided(("int-products", ua, ub, dt, oname))
+                res = r[1]
+                want = ref(A.astype(float) * sa, B.astype(float) * sb)
+                ru = getattr(res, "units", None)
+                gdim = dim_of(ru.dimensions) if ru is not None else dim_of(1)
+                got = np.asarray(getattr(res, "d", res), dtype=float) * (float(ru.base_value) if ru is not None else 1.0)
+                if gdim != wdim:
+                    ctx.violation(f"C04|int-products|op={oname}|dtype={dt}|mode=wrong-dimension", case, str(wdim), str(ru))
+                elif got.shape != np.shape(want) or np.any(np.abs(got - want) > 1e-12 * np.abs(want)):
+                    ctx.violation(f"C04|int-products|op={oname}|dtype={dt}|mode=wrong-value", case, np.asarray(want).tolist(), got.tolist())
+
+
 # ---- reductions with a quantity-valued start value ----------------------------------------------------------------------
 def part_initial(ctx, shard):
     """reduce(..., initial=q): the start value takes part like any other element, whatever commensurable unit it is
@@ -958,6 +991,7 @@ def run(ctx):
     harness.pmap(ctx, part_extra, [extra_pairs[i::32] for i in range(32)])
     harness.pmap(ctx, part_namesake, [["stale-after-modify"], ["two-registries"]])
     harness.pmap(ctx, part_axes, [[(u, sh)] for u in RED_UNITS for sh in ((2, 3), (2, 3, 4), (3,), (1, 3))])
+    harness.pmap(ctx, part_int_products, [[p] for p in (("pc", "1/cm"), ("Mpc", "1/mm"), ("km", "1/mm"), ("kg", "1/mg"), ("yr", "1/ns"), ("mm", "1/Mpc"), ("cm", "km"), ("Msun", "1/g"))])
     harness.pmap(ctx, part_initial, [[p] for p in (("km", "km"), ("km", "m"), ("m", "km"), ("hr", "s"), ("g", "kg"), ("K", "R"))])
     harness.pmap(ctx, part_array_power, [[u] for u in ("km", "hr/s", "dimensionless", "percent", "m/s")])
     wpairs = [(a, b) for a in WIDTH_DTYPES for b in WIDTH_DTYPES if np.dtype(a).itemsize != np.dtype(b).itemsize]
@@ -987,6 +1021,9 @@ def replay(case):
         return list(ctx.violations.items())
     if case.get("part") == "axes":
         part_axes(ctx, [(case["unit"], tuple(case["shape"]))])
+        return list(ctx.violations.items())
+    if case.get("part") == "int-products":
+        part_int_products(ctx, [tuple(case["units"])])
         return list(ctx.violations.items())
     if case.get("part") == "initial":
         part_initial(ctx, [(case["unit"], case["initial_unit"])])
